@@ -87,6 +87,9 @@ package mux
 // the assume clauses below state.
 //@ func forChildren
 //@   loop 1
+// every child is visited: the loop is only left when the iterator is exhausted
+// (character data between payloads is skipped, it does not end the dispatch)
+//@     exhaustive[C14]
 //@     invariant[C14] len(r.buf) >= 1
 //@   callsite mellium.im/xmlstream.NewIter#1
 //@     assume[C14] len(r.buf) >= 1
